@@ -4,20 +4,21 @@ C04 — MODEL of `indexer.indexSince` (embedded/store/indexer.go) on the multi-v
 `indexBulk sp env tr txs` mirrors one call of `indexSince(txID)` that gathered the transactions
 `txs` (`txID` = id of the first one):
 
+  `maxBulkSize := idx.maxBulkSize; if idx.spec.InjectiveMapping { maxBulkSize = 1 }` — `Spec.maxBulk`:
+  an injective index gathers ONE transaction per call, any other index up to `MaxBulkSize`;
   for every tx, for every entry:  non-indexable → skip;  source prefix mismatch → skip;
   sourceKey/targetKey through the mappers;  target prefix mismatch → error (nothing inserted);
-  KVT (targetKey, indexed value, T = id of THAT tx);
-  `if idx.spec.InjectiveMapping && txID > 1` — NB `txID` is the id of the FIRST tx of the bulk —
-  the previous version of the row is looked up in the source index as of `txID - 1`
-  (again the first tx of the bulk) and, when it maps to another target key, a tombstone KVT is added;
+  KVT (copy of targetKey, indexed value, T = id of THAT tx);
+  `if idx.spec.InjectiveMapping && txID > 1` — `txID` is the id of the first tx of the bulk, which for an
+  injective index is the transaction being indexed — the previous version of the row is looked up in the
+  source index as of `txID - 1` and, when it maps to another target key, a tombstone KVT is added
+  (copy of the previous mapped key, previous metadata + deleted);
   finally `IncreaseTs(last id)` when nothing is indexable, else `BulkInsert`.
 
-Two variants of key ownership:
-  * `indexBulk`        — every KVT owns its key bytes (what the code is meant to do);
-  * `indexBulkAliased` — AS THE CODE IS: without mappers `targetKey` is `e.key()`, a slice of the `idx.tx`
-    entry buffer number `j` (position of the entry in its tx).  `readTx` of the next tx of the same bulk
-    overwrites that buffer, and `BulkInsert` (which copies the keys) only runs after the whole bulk was
-    read.  The key finally inserted is `buffer_j[:len(original key)]`.
+Every KVT owns its key bytes (`append(idx._kvs[i].K[:0], targetKey...)`), so the reuse of the `idx.tx`
+entry buffers by the next `readTx` of the same bulk is not observable and is not modelled.
+`idx._kvs` is pre-allocated with `2 * MaxTxEntries * MaxBulkSize` slots (`kvsLen`); `indexBulkCap` is the
+indexer with that bound (an overrun would be a Go panic).
 Core Lean only.
 -/
 import ImmuModel.Index.LogView
@@ -40,10 +41,9 @@ def entryKVTs (sp : Spec) (env : Env) (start t : Nat) (e : Entry) : Except IdxEr
     if !hasPrefix tk sp.tgtPrefix then .error .badTargetPrefix
     else
       let main : KVT IVal := ⟨tk, e.ival, t⟩
-      -- AS THE CODE IS (`sp.q.lookupAtBulkStart`): `txID` of indexSince, not `txID + i`
-      let cur := if sp.q.lookupAtBulkStart then start else t
-      if sp.injective && decide (1 < cur) then
-        match env.srcPrev (cur - 1) sk with
+      -- `txID` of indexSince (first tx of the bulk), not `txID + i`: see `Spec.maxBulk`
+      if sp.injective && decide (1 < start) then
+        match env.srcPrev (start - 1) sk with
         | none => .ok [main]
         | some p =>
           match env.readEntry p e.key with
@@ -52,7 +52,7 @@ def entryKVTs (sp : Spec) (env : Env) (start t : Nat) (e : Entry) : Except IdxEr
             let tpk := mapKey sp.tmap sk pe.value
             if tk = tpk then .ok [main]
             else if !hasPrefix tpk sp.tgtPrefix then .error .badTargetPrefix
-            else .ok [main, ⟨tpk, { vlen := pe.value.length, hval := pe.hval, md := sp.q.tomb pe.md }, t⟩]
+            else .ok [main, ⟨tpk, { vlen := pe.value.length, hval := pe.hval, md := tombMd pe.md }, t⟩]
       else .ok [main]
 
 def entriesKVTs (sp : Spec) (env : Env) (start t : Nat) : List Entry → Except IdxErr (List (KVT IVal))
@@ -100,10 +100,17 @@ def indexBulk (sp : Spec) (env : Env) (tr : Tree IVal) (txs : List Tx) : Except 
     | .error x => .error x
     | .ok kvts => applyKVTs tr kvts (lastId txs)
 
-/-- AS THE CODE IS: the KVTs of a bulk are written into the pre-allocated `idx._kvs`, whose length is
-`maxTxEntries * MaxBulkSize` (`cap`).  An injective mapping yields up to TWO KVTs per entry (new key +
-tombstone of the previous key), so the slice can be overrun: Go panics with "index out of range" in the
-indexer goroutine, i.e. the process dies.  `indexBulk` is the same function with an unbounded buffer. -/
+/-- `maxBulkSize` of `indexSince`: an injective index takes one transaction per call (the lookup of the
+previous row version as of `txID - 1` is only right for the first transaction of a bulk). -/
+def Spec.maxBulk (sp : Spec) (maxBulkSize : Nat) : Nat := if sp.injective then 1 else maxBulkSize
+
+/-- `len(idx._kvs)` as allocated by `newIndexer`: an injective mapping emits up to two KVTs per entry
+(new mapped key + tombstone of the previous mapped key). -/
+def kvsLen (maxTxEntries maxBulkSize : Nat) : Nat := 2 * maxTxEntries * maxBulkSize
+
+/-- The KVTs of a bulk are written into the pre-allocated `idx._kvs` of `cap` slots; writing past it is a Go
+panic ("index out of range") in the indexer goroutine.  `indexBulk` is the same function with an unbounded
+buffer; `Props.C04.kvs_never_overflows` shows that `cap = kvsLen MaxTxEntries MaxBulkSize` is always enough. -/
 def indexBulkCap (cap : Nat) (sp : Spec) (env : Env) (tr : Tree IVal) (txs : List Tx) : Except IdxErr (Tree IVal) :=
   match txs with
   | [] => .ok tr
@@ -119,80 +126,5 @@ def runBulks (sp : Spec) (env : Env) : Tree IVal → List (List Tx) → Except I
     match indexBulk sp env tr b with
     | .error x => .error x
     | .ok tr' => runBulks sp env tr' bs
-
-/-! ### the code as it is: keys alias the tx entry buffers -/
-
-/-- `copy(buf, key)` into a buffer that is never shorter than any key written before -/
-def overlay (key buf : Bytes) : Bytes := key ++ buf.drop key.length
-
-/-- `readTx`: entry `j` of the tx is read into buffer `j` -/
-def readInto : List Bytes → List Entry → List Bytes
-  | bufs, [] => bufs
-  | [], e :: es => e.key :: readInto [] es
-  | b :: bufs, e :: es => overlay e.key b :: readInto bufs es
-
-/-- a KVT whose key is still a slice `buffer_j[:len]` (`alias = some (j, len)`) or an owned key -/
-structure PKVT where
-  alias : Option (Nat × Nat)
-  kvt : KVT IVal
-
-def aliases (sp : Spec) : Bool := sp.smap.isNone && sp.tmap.isNone
-
-/-- KVTs of one tx with the main KVT of entry `j` marked as aliasing buffer `j` when no mapper is configured -/
-def entriesPKVTs (sp : Spec) (env : Env) (start t : Nat) : Nat → List Entry → Except IdxErr (List PKVT)
-  | _, [] => .ok []
-  | j, e :: es =>
-    match entryKVTs sp env start t e with
-    | .error x => .error x
-    | .ok a =>
-      match entriesPKVTs sp env start t (j + 1) es with
-      | .error x => .error x
-      | .ok b =>
-        let a' : List PKVT := match a with
-          | [] => []
-          | main :: more =>
-            ⟨if aliases sp then some (j, main.k.length) else none, main⟩ :: more.map (fun kv => ⟨none, kv⟩)
-        .ok (a' ++ b)
-
-def txsPKVTs (sp : Spec) (env : Env) (start : Nat) : List Bytes → List Tx → Except IdxErr (List PKVT × List Bytes)
-  | bufs, [] => .ok ([], bufs)
-  | bufs, tx :: rest =>
-    let bufs' := readInto bufs tx.entries
-    match entriesPKVTs sp env start tx.id 0 tx.entries with
-    | .error x => .error x
-    | .ok a =>
-      match txsPKVTs sp env start bufs' rest with
-      | .error x => .error x
-      | .ok (b, bufsEnd) => .ok (a ++ b, bufsEnd)
-
-/-- the key `BulkInsert` finally copies -/
-def resolve (bufs : List Bytes) (p : PKVT) : KVT IVal :=
-  match p.alias with
-  | none => p.kvt
-  | some (j, len) =>
-    match bufs[j]? with
-    | none => p.kvt
-    | some b => { p.kvt with k := b.take len }
-
-/-- one `indexSince` call as the code is; the buffers persist across calls -/
-def indexBulkAliased (sp : Spec) (env : Env) (st : Tree IVal × List Bytes) (txs : List Tx) :
-    Except IdxErr (Tree IVal × List Bytes) :=
-  match txs with
-  | [] => .ok st
-  | tx0 :: _ =>
-    match txsPKVTs sp env tx0.id st.2 txs with
-    | .error x => .error x
-    | .ok (ps, bufs) =>
-      match applyKVTs st.1 (ps.map (resolve bufs)) (lastId txs) with
-      | .error x => .error x
-      | .ok tr => .ok (tr, bufs)
-
-def runBulksAliased (sp : Spec) (env : Env) :
-    Tree IVal × List Bytes → List (List Tx) → Except IdxErr (Tree IVal × List Bytes)
-  | st, [] => .ok st
-  | st, b :: bs =>
-    match indexBulkAliased sp env st b with
-    | .error x => .error x
-    | .ok st' => runBulksAliased sp env st' bs
 
 end ImmuModel.Index.L
